@@ -61,6 +61,10 @@ type c02Script struct {
 	// overwrites for the next write and scribbles over afterwards (bufio / io.Copy
 	// style). http.ResponseWriter.Write must not retain the slice.
 	Reuse bool `json:"reuse_buffer,omitempty"`
+	// InMW: the script is executed by the middleware registered with Server.Use
+	// (which then does not call the route handler). User middlewares sit inside the
+	// guards, so everything the chain owes a handler it owes them as well.
+	InMW bool `json:"in_use_middleware,omitempty"`
 }
 
 // c02Bytes is the payload of the write at step index i of run id: recognisable
@@ -455,12 +459,13 @@ type c02Ev struct {
 }
 
 type c02Route struct {
-	Method   string
-	Path     string
-	Timeout  time.Duration // effective route timeout, 0 = none
-	MaxBytes int64         // effective limit, 0 = none
-	Class    string
-	Label    string // how the timeout was configured: config-{zero,negative,positive}:route-{unset,set}
+	Method    string
+	Path      string
+	Timeout   time.Duration // effective route timeout, 0 = none
+	MaxBytes  int64         // effective limit, 0 = none
+	Class     string
+	NoBreaker bool
+	Label     string // how the timeout was configured: config-{zero,negative,positive}:route-{unset,set}
 
 	inside    int64
 	maxInside int64
@@ -693,6 +698,9 @@ type c02Group struct {
 	N        int           // number of routes
 	Timeout  time.Duration // route option (0 = none: the config value applies)
 	MaxBytes int64         // route option (0 = none)
+	// NoBreaker: the routes are served by a user-composed chain without
+	// BreakerHandler: a 503 without handler entry can never be excused as a breaker rejection
+	NoBreaker bool
 }
 
 type c02Env struct {
@@ -724,10 +732,11 @@ func c02NewEnv(tag string, cfg Config, groups []c02Group, opts ...Option) (*c02E
 	if parity%3 == 0 {
 		srv.Use(e.passMiddleware) // a server-wide user middleware (innermost): must be transparent
 	}
+	srv.Use(e.scriptMiddleware)
 	for gi, g := range groups {
 		var rs []Route
 		for i := 0; i < g.N; i++ {
-			rt := &c02Route{Method: g.Method, Path: fmt.Sprintf("/%s/%s/r%d", tag, g.Class, i), Class: g.Class}
+			rt := &c02Route{Method: g.Method, Path: fmt.Sprintf("/%s/%s/r%d", tag, g.Class, i), Class: g.Class, NoBreaker: g.NoBreaker}
 			sign, set := "zero", "unset"
 			if cfg.Timeout < 0 {
 				sign = "negative"
@@ -781,6 +790,21 @@ func (e *c02Env) passMiddleware(next http.HandlerFunc) http.HandlerFunc {
 	}
 }
 
+// scriptMiddleware (registered with Server.Use) executes the scripts marked InMW
+// itself and passes every other request on.
+func (e *c02Env) scriptMiddleware(next http.HandlerFunc) http.HandlerFunc {
+	return func(w http.ResponseWriter, r *http.Request) {
+		if v, ok := e.runs.Load(r.Header.Get(c02RunHeader)); ok && v.(*c02Run).script.InMW {
+			atomic.AddInt64(&c02ScriptsRunInMiddleware, 1)
+			v.(*c02Run).exec(w, r)
+			return
+		}
+		next(w, r)
+	}
+}
+
+var c02ScriptsRunInMiddleware int64
+
 func (e *c02Env) handle(w http.ResponseWriter, r *http.Request) {
 	v, ok := e.runs.Load(r.Header.Get(c02RunHeader))
 	if !ok {
@@ -811,6 +835,11 @@ func (e *c02Env) newRun(rt *c02Route, sc *c02Script) *c02Run {
 	var rh [][2]string
 	if n%3 == 0 { // every third request, cycling through the list
 		rh = append(rh, c02HostileHeaders[int(n/3)%len(c02HostileHeaders)])
+	}
+	if n%4 == 1 && !sc.InMW { // every fourth script runs in the Server.Use middleware instead of the route handler
+		cp := *sc
+		cp.InMW = true
+		sc = &cp
 	}
 	run := &c02Run{id: id, script: sc, route: rt, reqHdr: rh,
 		gate: make(chan struct{}), enteredCh: make(chan struct{}), blockedCh: make(chan struct{}),
@@ -997,7 +1026,11 @@ func (c *c02Ctx) violate(sig string, run *c02Run, resp *c02Resp, format string, 
 // handler). Scenarios therefore taint the route *before* issuing anything that
 // panics, blocks past a deadline or answers >= 500. On a tainted route a 503
 // without handler entry is a possible breaker rejection and never a verdict.
-func c02Taint(rt *c02Route) { atomic.AddInt64(&rt.fails, 1) }
+func c02Taint(rt *c02Route) {
+	if !rt.NoBreaker {
+		atomic.AddInt64(&rt.fails, 1)
+	}
+}
 
 func c02TaintFor(rt *c02Route, sc *c02Script) {
 	if sc.Kind != "fast" && sc.Kind != "park" && sc.Kind != "cancel" || sc.model("", len(sc.Steps)).status >= 500 {
